@@ -249,6 +249,24 @@ def c14(run):
         why = check_law_output(lines, c, d, a, b, ans)
         if why:
             run.fail({'program': src, 'a': a, 'b': b, 'printed': lines, 'outcome': c + ' ' + d}, why)
+    # --- the IEEE facts the theorems take as hypotheses (NumLaws: int_exact / add_nat / mul_nat, add_negzero), sampled on
+    # the implementation: exact integer arithmetic below 2^53
+    lreqs, lwant = [], []
+    for _ in range(run.n(1500, 20000)):
+        a = rng.randint(-2 ** 53, 2 ** 53)
+        k = rng.randint(-2 ** 53, 2 ** 53)
+        if abs(a + k) <= 2 ** 53:
+            lreqs.append('val plus %s %s' % (progs.nenc(float(a)), progs.nenc(float(k)))); lwant.append(progs.nenc(float(a + k)))
+        x = rng.randint(0, 2 ** 26)
+        y = rng.randint(0, 2 ** 27)
+        if x * y <= 2 ** 53:
+            lreqs.append('val multiply %s %s' % (progs.nenc(float(x)), progs.nenc(float(y)))); lwant.append(progs.nenc(float(x * y)))
+        lreqs.append('val plus %s %s' % (progs.nenc(-0.0), progs.nenc(float(x)))); lwant.append(progs.nenc(float(x)))
+    lm, lim = run.tie(lreqs, functional=True, desc=lambda i: {'request': lreqs[i]})
+    for rq, w, r in zip(lreqs, lwant, lim):
+        run.case(rq, True, law='numlaws-sample')
+        if r != w:
+            run.fail({'request': rq, 'expected': w, 'answer': r}, 'integer arithmetic below 2^53 is not exact (a NumLaws hypothesis of the theorems is false of this f64)')
     # --- build / knock
     bk = []
     vals = ['t', 'f', 'n'] + [progs.nenc(x) for x in [0.0, 1.0, -1.0, 2.0, 0.5, -0.5, 3.0, 10.0, 1e15, 2.0 ** 52, 0.25, 1234567.0,
